@@ -10,7 +10,7 @@ from values import *  # noqa
 from schema import base_type, last_seg
 
 NUM_TYPES = {"f64", "f32"}
-INT_TYPES = {"usize", "u8", "u16", "u32", "u64", "i8", "i16", "i32", "i64", "isize"}
+INT_TYPES = {"usize", "u8", "u16", "u32", "u64", "i8", "i16", "i32", "i64", "isize", "EstIdx"}
 
 
 class Sym:
